@@ -99,7 +99,7 @@ def model_value(model, v: Val, depth=0):
     return str(s)
 
 
-def verify_unit(reg, idx: SourceIndex, c: Contract, timeout_ms=None, seed=0, discharge_now=True, finite=None) -> UnitResult:
+def verify_unit(reg, idx: SourceIndex, c: Contract, timeout_ms=None, seed=0, discharge_now=True, finite=None, first_pass=False) -> UnitResult:
     t0 = time.time()
     res = UnitResult(c.name)
     ctx = VCtx(c.name)
@@ -259,7 +259,7 @@ def verify_unit(reg, idx: SourceIndex, c: Contract, timeout_ms=None, seed=0, dis
     res._ctx = ctx
     for ob in ctx.obligations:
         if discharge_now:
-            discharge(ob, axioms, timeout_ms=timeout_ms, seed=seed)
+            discharge(ob, axioms, timeout_ms=timeout_ms, seed=seed, first_pass=first_pass)
         d = {"name": ob.name, "kind": ob.kind, "status": ob.status, "backend": ob.backend,
              "seconds": round(ob.seconds, 4), "reason": ob.reason}
         if ob.status == "refuted" and ob.model is not None:
@@ -277,7 +277,7 @@ def verify_unit(reg, idx: SourceIndex, c: Contract, timeout_ms=None, seed=0, dis
     return res
 
 
-def refute_finite(reg, idx, c, names, scope=3, timeout_ms=60000, seed=0):
+def refute_finite(reg, idx, c, names, scope=3, timeout_ms=60000, seed=0, max_obs=None):
     """Finite-instantiation refutation search for the named obligations of unit c: the unit is
     re-executed with every index quantifier expanded over the window -1..scope; the queries are
     quantifier free, so `sat` yields a concrete model.  Returns {name: obligation dict}."""
@@ -290,6 +290,10 @@ def refute_finite(reg, idx, c, names, scope=3, timeout_ms=60000, seed=0):
     for ob in ctx.obligations:
         if ob.name not in names or ob.name in out:
             continue
+        if max_obs is not None:
+            if max_obs <= 0:
+                break
+            max_obs -= 1
         t0 = time.time()
         s = z3.Solver()
         s.set("timeout", timeout_ms)
@@ -313,21 +317,46 @@ def refute_finite(reg, idx, c, names, scope=3, timeout_ms=60000, seed=0):
 
 
 def decide_unit(reg, idx, c, timeout_ms=None, seed=0, scope=3):
-    """verify_unit + refutation search for whatever stayed undecided."""
-    r = verify_unit(reg, idx, c, timeout_ms=timeout_ms, seed=seed)
+    """verify_unit in two passes with the refutation search in between: (1) the cheap solver
+    stages; (2) for what they leave open, a short finite-instantiation refutation search (a false
+    obligation is usually refuted here in seconds, instead of exhausting every proof stage first);
+    (3) the long proof stages for the rest; (4) the full refutation search for what is still open."""
+    r = verify_unit(reg, idx, c, timeout_ms=timeout_ms, seed=seed, first_pass=True)
     if r.status != "ok":
         return r
-    und = {o["name"] for o in r.obligations if o["status"] == "undecided"}
-    if und:
+    ctx = r._ctx
+    axioms = ctx.all_axioms()
+    pairs = list(zip(ctx.obligations, r.obligations))
+
+    def refresh(ob, d):
+        d.update(status=ob.status, backend=ob.backend, seconds=round(ob.seconds, 4), reason=ob.reason)
+        if ob.status == "refuted" and ob.model is not None:
+            try:
+                d["model"] = {p: model_value(ob.model, v) for p, v in ctx.param_vals.items() if not isinstance(v.shape, ConcS)}
+            except Exception as e:
+                d["model"] = {"error": repr(e)}
+
+    def apply_found(found):
+        for ob, d in pairs:
+            if d["status"] in ("pending", "undecided") and d["name"] in found:
+                f = found[d["name"]]
+                ob.status = "refuted"
+                d.update(status="refuted", backend=f["backend"], reason=(d.get("reason") or "") + "; " + f["reason"], model=f["model"])
+                d["seconds"] = round(d["seconds"] + f["seconds"], 4)
+    pending = {d["name"] for _, d in pairs if d["status"] == "pending"}
+    if pending:
         try:
-            found = refute_finite(reg, idx, c, und, scope=scope, seed=seed)
+            apply_found(refute_finite(reg, idx, c, pending, scope=scope, timeout_ms=3000, seed=seed, max_obs=6))
         except Exception as e:
             r.notes.append("finite refutation search failed: " + repr(e)[:200])
-            found = {}
-        for o in r.obligations:
-            if o["status"] == "undecided" and o["name"] in found:
-                f = found[o["name"]]
-                o.update(status="refuted", backend=f["backend"], reason=o["reason"] + "; " + f["reason"], model=f["model"])
-                o["seconds"] = round(o["seconds"] + f["seconds"], 4)
-    r.seconds = time.time() - r.seconds if False else r.seconds
+    for ob, d in pairs:
+        if d["status"] == "pending":
+            discharge(ob, axioms, timeout_ms=timeout_ms, seed=seed)
+            refresh(ob, d)
+    und = {d["name"] for _, d in pairs if d["status"] == "undecided"}
+    if und:
+        try:
+            apply_found(refute_finite(reg, idx, c, und, scope=scope, seed=seed))
+        except Exception as e:
+            r.notes.append("finite refutation search failed: " + repr(e)[:200])
     return r
